@@ -168,11 +168,25 @@ func (t *SymbolTable) Verify() error {
 	return errs.ErrorOrNil()
 }
 
+// sortedTerminals returns the terminals of the table in a fixed order.
+// The table itself iterates in a random order, which must not show in the diagnostics.
+func (t *SymbolTable) sortedTerminals() []grammar.Terminal {
+	terms := make([]grammar.Terminal, 0, t.terminals.table.Size())
+	for a := range t.terminals.table.All() {
+		terms = append(terms, a)
+	}
+	sort.Quick(terms, grammar.CmpTerminal)
+
+	return terms
+}
+
 // ensureSingleDefs ensures every terminal has one and only one definition.
 func (t *SymbolTable) ensureSingleDefs() error {
 	var errs error
 
-	for a, e := range t.terminals.table.All() {
+	terms := t.sortedTerminals()
+	for _, a := range terms {
+		e, _ := t.terminals.table.Get(a)
 		if count := len(e.definitions); count == 0 {
 			errs = errors.Append(errs, fmt.Errorf("no definition for terminal %s", a))
 		} else if count > 1 {
@@ -194,7 +208,9 @@ func (t *SymbolTable) ensureDistinctDefs() error {
 	var errs error
 
 	reverse := make(map[string][]*TerminalDef)
-	for _, e := range t.terminals.table.All() {
+	terms := t.sortedTerminals()
+	for _, a := range terms {
+		e, _ := t.terminals.table.Get(a)
 		if len(e.definitions) == 1 {
 			def := e.definitions[0]
 			reverse[def.Value] = append(reverse[def.Value], def)
